@@ -10,6 +10,8 @@ import TransportVerif.Props.C01NatStable
 #print axioms TV.Props.C01.inbox_is_suffix
 #print axioms TV.Props.C01.read_takes_next
 #print axioms TV.Props.C01.flow_fifo_partial
+#print axioms TV.Props.C01.same_flow_same_path
+#print axioms TV.Props.C01.flow_fifo
 #print axioms TV.Props.C01.push_keeps
 #print axioms TV.Props.C01.deliver_keeps
 #print axioms TV.Props.C01.route_pops_head
